@@ -24,7 +24,15 @@ func init() {
 		Quick:    [][]int64{{0}, {1}},
 		Thorough: [][]int64{{0}, {1}},
 		Unwind:   40,
-		Desc:     "events of one delivery seen by a listener registered for stored and deleted: two recipients naming one mailbox with cap 1 give stored(1), deleted(1), stored(2) in that order; when the store fails for the second recipient the first copy still has its stored event",
+		Desc:     "events of one delivery seen by a listener registered for stored and deleted: two recipients naming one mailbox with cap 1 give stored(1), deleted(1), stored(2) in that order; when the store fails for the second recipient the delivery leaves nothing behind (C01) and the undone copy has a stored and a deleted event",
 		Bounds:   "param (scenario); concrete recipients; real StoreManager.Deliver, policy, memory store, Host brokers",
+	})
+	register(Harness{
+		Prop: "C01", Pkg: "zzdeliver", Func: "VerifC16DeliverOrder", ExtraPkgs: []string{"storage/mem", "storage/file", "message"}, InitPkgs: []string{"storage", "storage/mem", "storage/file", "message"},
+		Quick:    [][]int64{{1}},
+		Thorough: [][]int64{{0}, {1}},
+		Unwind:   40,
+		Desc:     "a delivery whose store fails for the second recipient (the session then answers 451) leaves no message in any mailbox",
+		Bounds:   "param (scenario); concrete recipients; real StoreManager.Deliver, policy, memory store",
 	})
 }
